@@ -2604,6 +2604,13 @@ HandleRFBServerMessage(rfbClient* client)
     msg.sct.length = rfbClientSwap32IfLE(msg.sct.length);
 #endif
 
+#ifdef LIBVNCSERVER_HAVE_LIBZ
+    /* extended format: the 1 MB limit applies to the inflated text (rfbClientProcessExtServerCutText);
+       its compressed form may be slightly larger, so it gets 1 KB of slack */
+    if (ilen < 0 && msg.sct.length <= (1<<20) + 1024) {
+	    /* accepted */
+    } else
+#endif
     if (msg.sct.length > 1<<20) {
 	    rfbClientErr("Ignoring too big cut text length sent by server: %u B > 1 MB\n", (unsigned int)msg.sct.length);
 	    return FALSE;
